@@ -150,6 +150,39 @@ func c03(c *Ctx) {
 		}
 		c.AddEval(q, h.Obj(kv...), "random", false, true)
 	}
+	// one parsed operation reused over a document that is updated in place: every assignment in a random
+	// order, for trees placed at top level, nested, in a filter and as a function argument
+	{
+		var qs []string
+		var sts [][]*D
+		nReuse := c.N(300, 3000)
+		for i := 0; i < nReuse; i++ {
+			t := trees[c.Rng.Intn(len(trees))]
+			if len(t.kids) == 0 {
+				continue
+			}
+			order := c.Rng.Perm(1 << nvars)
+			var states []*D
+			for _, asg := range append(order, order[0]) {
+				kv := []any{}
+				for v := 0; v < nvars; v++ {
+					kv = append(kv, fmt.Sprintf("v%d", v), h.Bool(asg&(1<<v) != 0))
+				}
+				kv = append(kv, "tt", h.Bool(true))
+				states = append(states, h.Obj(kv...))
+			}
+			switch i % 3 {
+			case 0:
+				qs = append(qs, t.text(rootVar))
+			case 1:
+				qs = append(qs, "$.tt.Equal("+t.text(rootVar)+")")
+			default:
+				qs = append(qs, "{OR,"+t.text(rootVar)+",{AND,$.tt.Equal("+t.text(rootVar)+")}}")
+			}
+			sts = append(sts, states)
+		}
+		c.runReuse("reuse", qs, sts)
+	}
 	c.Exhaust = c.Exhaust && false // the random part is not exhaustive; the flag describes the whole run
 	c.Note("exhaustive_part", map[string]any{"trees": len(trees), "variables": nvars, "width": width, "depth": 2})
 }
